@@ -15,6 +15,7 @@ Mixed2 == Gen(2, {0, 1, 2, 4, 6, 8, 9, 11, 13, 14}, 1)          \* out-degrees 1
 G2AC == Gen(2, {0, 1, 4, 5}, 2)                                  \* complete on the 2-mers over {A, C}: contains the all-A vertex
 G2Quick == {GCB, G2AC}
 G2All == {GCB, NoHomo, Mixed2}
+G1Pair == {Gen(1, {0, 1}, 2)}
 G12 == G1Some \cup G2Quick
 G1Small == {Gen(1, {0, 1}, 2), Gen(1, {0, 2, 3}, 2)}
 G12q == {Gen(1, {0, 2, 3}, 2), GCB}
